@@ -463,6 +463,88 @@ def inline_private_helpers(f: "FuncInfo", depth: int = 3) -> ast.FunctionDef:
     node.body = process(node.body, 0)
     return ast.fix_missing_locations(node)
 
+def execution_condition(func: ast.AST, stmt: ast.stmt, stop_at=(ast.For, ast.While, ast.FunctionDef)):
+    """Conjunction of the conditions under which ``stmt`` executes within the innermost enclosing
+    loop body / function: tests of enclosing ``if``s (negated in the else arm) and negated tests of
+    preceding guard clauses that leave the block (continue / break / return / raise).
+    Returns a list of (test expression, required truth value)."""
+    parents = {}
+    for n in ast.walk(func):
+        for fld, val in ast.iter_fields(n):
+            if isinstance(val, list):
+                for x in val:
+                    if isinstance(x, ast.AST):
+                        parents[x] = (n, fld)
+            elif isinstance(val, ast.AST):
+                parents[val] = (n, fld)
+    conds = []
+    node = stmt
+    while node in parents:
+        par, fld = parents[node]
+        block = getattr(par, fld) if isinstance(getattr(par, fld, None), list) else None
+        if block is not None and node in block:
+            for prev in block[: block.index(node)]:
+                if isinstance(prev, ast.If):
+                    leaves_body = bool(prev.body) and isinstance(prev.body[-1], (ast.Continue, ast.Break, ast.Return, ast.Raise))
+                    leaves_else = bool(prev.orelse) and isinstance(prev.orelse[-1], (ast.Continue, ast.Break, ast.Return, ast.Raise))
+                    if leaves_body and not leaves_else:
+                        conds.append((prev.test, False))
+                    elif leaves_else and not leaves_body:
+                        conds.append((prev.test, True))
+        if isinstance(par, ast.If) and fld in ("body", "orelse"):
+            conds.append((par.test, fld == "body"))
+        if isinstance(par, stop_at) and fld == "body":
+            break
+        node = par
+    return conds
+
+
+def bool_equivalent(conds, expected: ast.expr, atom_text=None) -> bool | None:
+    """Is the conjunction ``conds`` (list of (expr, truth)) logically equal to ``expected`` as a
+    boolean function of its atomic tests?  ``x is None`` / ``x is not None`` / ``not x`` share atoms.
+    Returns None when there are too many atoms."""
+    atoms: list[str] = []
+
+    def lit(e):
+        """-> (atom text, polarity)"""
+        if isinstance(e, ast.Compare) and len(e.ops) == 1 and isinstance(e.comparators[0], ast.Constant) and e.comparators[0].value is None and isinstance(e.ops[0], (ast.Is, ast.IsNot)):
+            return f"{norm(e.left)} is not None", isinstance(e.ops[0], ast.IsNot)
+        return norm(e), True
+
+    def ev(e, env):
+        if isinstance(e, ast.BoolOp):
+            vals = [ev(v, env) for v in e.values]
+            return all(vals) if isinstance(e.op, ast.And) else any(vals)
+        if isinstance(e, ast.UnaryOp) and isinstance(e.op, ast.Not):
+            return not ev(e.operand, env)
+        a, pol = lit(e)
+        return env[a] if pol else not env[a]
+
+    def collect(e):
+        if isinstance(e, ast.BoolOp):
+            for v in e.values:
+                collect(v)
+        elif isinstance(e, ast.UnaryOp) and isinstance(e.op, ast.Not):
+            collect(e.operand)
+        else:
+            a, _ = lit(e)
+            if a not in atoms:
+                atoms.append(a)
+
+    for e, _t in conds:
+        collect(e)
+    collect(expected)
+    if len(atoms) > 10:
+        return None
+    import itertools
+
+    for vals in itertools.product((False, True), repeat=len(atoms)):
+        env = dict(zip(atoms, vals))
+        got = all(ev(e, env) == t for e, t in conds)
+        if got != ev(expected, env):
+            return False
+    return True
+
 def _decorator_name(d: ast.expr) -> str:
     if isinstance(d, ast.Call):
         d = d.func
